@@ -48,11 +48,11 @@ func isCmpOp(op token.Token) bool {
 
 // operandCmp is a comparison between a left-derived and a right-derived value.
 type operandCmp struct {
-	Bo      *ssa.BinOp
-	Op      token.Token // normalised to "left op right"
-	Kind    string      // operand type compared: float / string / bool
-	Guards  string      // which dynamic operand types guard it, e.g. "L:NodeSet R:Number"
-	InLoop  bool
+	Bo     *ssa.BinOp
+	Op     token.Token // normalised to "left op right"
+	Kind   string      // operand type compared: float / string / bool
+	Guards string      // which dynamic operand types guard it, e.g. "L:NodeSet R:Number"
+	InLoop bool
 }
 
 func (w *World) operandComparisons(h *ssa.Function, left, right ssa.Value) []operandCmp {
@@ -218,6 +218,36 @@ func checkC05(w *World) {
 			w.check(P, "R05.3", cons, c.Bo.Pos(), ok3, why3)
 			arms = append(arms, positiveGuards(c.Guards)+"/"+c.Kind)
 		}
+		// constant results are stored only inside node-set arms; node-set arms compare node by node
+		allInstrs(h.Fn, func(in ssa.Instruction) {
+			st, ok := in.(*ssa.Store)
+			if !ok {
+				return
+			}
+			fa, ok := st.Addr.(*ssa.FieldAddr)
+			if !ok || fa.Field != r.CtxResultField {
+				return
+			}
+			cst, ok := stripConv(st.Val).(*ssa.Const)
+			if !ok || cst.Value == nil || cst.Value.Kind() != constant.Bool {
+				return
+			}
+			pg := positiveGuards(typeGuards(st.Block(), left, right))
+			okArm := false
+			for _, a := range []string{"L:NodeSet R:NodeSet", "L:Number R:NodeSet", "L:NodeSet R:Number", "L:NodeSet R:String", "L:String R:NodeSet"} {
+				if pg == a {
+					okArm = true
+				}
+			}
+			w.check(P, "R05.3", fmt.Sprintf("%s: constant result %s [%s]", nt, cst.Value.String(), pg), st.Pos(), okArm, "a constant boolean is stored as the result outside a node-set x (node-set|number|string) arm: guards "+orNone(typeGuards(st.Block(), left, right))+" (e.g. an early 'empty node-set gives false' exit is wrong against a boolean operand, whose comparison uses boolean(node-set))")
+		})
+		for i, c := range cmps {
+			pg := positiveGuards(c.Guards)
+			if strings.Contains(pg, "NodeSet") && !strings.Contains(pg, "Bool") {
+				perNode := c.InLoop && (derivesFromLoopElement(c.Bo.X) || derivesFromLoopElement(c.Bo.Y))
+				w.check(P, "R05.3", fmt.Sprintf("%s: comparison #%d [%s] is made per node", nt, i+1, pg), c.Bo.Pos(), perNode, fmt.Sprintf("the comparison sits inside the loop over the node-set and compares that loop's node: %v (summaries such as min/max of the set lose NaN and non-numeric nodes)", perNode))
+			}
+		}
 		sort.Strings(arms)
 		armSets[nt] = strings.Join(arms, " | ")
 		if len(cmps) < 6 {
@@ -258,6 +288,18 @@ func checkC05(w *World) {
 	w.floor(P, "R05.3", 48)
 	w.floor(P, "R05.4", 14)
 	w.floor(P, "R05.5", 46)
+}
+
+// derivesFromLoopElement: v is computed from set[i] with i a loop counter.
+func derivesFromLoopElement(v ssa.Value) bool {
+	return sliceContains(v, func(x ssa.Value) bool {
+		ld, ok := x.(*ssa.UnOp)
+		if !ok {
+			return false
+		}
+		ia, ok := ld.X.(*ssa.IndexAddr)
+		return ok && ascendingCounter(ia.Index)
+	})
 }
 
 func isBoolCall(v ssa.Value) bool {
